@@ -841,3 +841,10 @@ def shrink(case, fails):
         t["s1"] = [None, None]; t["s2"] = [None] * 4
         if fails(t): cur = t
     return cur
+
+
+def translate(repo, gen_dir):
+    """regenerate Gen/C11_Kernel.v (kernel expressions and call shapes of the genetic maps, the map functions and interp_xoprob)
+    from the current source; fail closed"""
+    from translate import c11_kernel
+    return [c11_kernel.translate(repo, gen_dir)]
